@@ -177,6 +177,8 @@ fn families(a: &Args) -> Vec<Family> {
         list_family("digraph-lists", false, ListFam::new(3, if t { 4 } else { 3 }, true), t),
         simple_family("ungraphs", false, SimpleFam::new(0..=4, false, true), t),
         list_family("ungraph-lists", false, ListFam::new(3, if t { 4 } else { 3 }, false), t),
+        simple_family("digraphs5-loopfree", true, SimpleFam::new(5..=5, true, false), false),
+        simple_family("ungraphs5", true, SimpleFam::new(5..=5, false, true), false),
     ]
 }
 
